@@ -95,18 +95,13 @@ func keyGroupRanges(keyGroupCount, rangeCount int) []KeyGroupRange {
 // KeyGroupRanges.
 func AssignRanges(to []KeyGroupRange, from []KeyGroupRange) [][]int {
 	assignments := make([][]int, len(to))
-	fromIdx := 0
 	for toIdx, toRange := range to {
-		// Advance fromIdx to the first possible overlap
-		for fromIdx < len(from) && from[fromIdx].End <= toRange.Start {
-			fromIdx++
-		}
-		j := fromIdx
-		for j < len(from) && from[j].Start < toRange.End {
-			if toRange.Overlaps(from[j]) {
-				assignments[toIdx] = append(assignments[toIdx], j)
+		// The `from` ranges come in the order their owners reported them, which
+		// is not necessarily ascending, so every one of them is a candidate.
+		for fromIdx, fromRange := range from {
+			if toRange.Overlaps(fromRange) {
+				assignments[toIdx] = append(assignments[toIdx], fromIdx)
 			}
-			j++
 		}
 	}
 	return assignments
